@@ -65,6 +65,14 @@ func (r *Rec) T(id int) bool {
 	return b
 }
 
+// Any is the operand of type switches: an int when the tape says true, a string otherwise.
+func (r *Rec) Any(id int) any {
+	if r.T(id) {
+		return 1
+	}
+	return "s"
+}
+
 // TA is T for conditions that must mention a variable declared by an initialiser.
 func (r *Rec) TA(id int, _ ...int) bool { return r.T(id) }
 
